@@ -266,3 +266,33 @@ def aux_extras(ck, w, seed, quick):
         ck.distinct(('auxchain',) + j)
         if probs:
             ck.violation('%s AuxPoW chain %d: %s' % (j[0], j[1], '; '.join(probs[:3])), {'coin': j[0], 'observed': r.brief(), 'tags': []})
+
+    # a block cut short inside its AuxPoW section is unreadable - the section is consumed exactly or the block is not decoded at
+    # all (there is no second, section-less reading of the same bytes)
+    for coin in ('namecoin', 'dogecoin'):
+        r0 = random.Random('%d-auxcut-%s' % (seed, coin))
+        blocks, prev = [], b'\0' * 32
+        for h in range(3):
+            aux = {'cb': {'seg': h == 1, 'ins': ['s'], 'outs': ['s'], 'wit': [['s']]}, 'b1': 3, 'b2': 2}
+            rec = {'coin': coin, 'block': {'ver': 1, 'aux': aux, 'txs': [{'seg': False, 'ins': ['s'], 'outs': ['s'], 'wit': [[]]}]}}
+            b = wirerep.mk_block(rec, r0, prev=prev, t=1400000000 + h, sizes=wirerep.CHAIN_SIZES[0])
+            blocks.append(b)
+            prev = b['hash']
+        d = datadir.simple_dir(w.sub('dd'), blocks, coin).write(plain=True)
+        total = os.path.getsize(os.path.join(d, 'blk00000.dat'))
+        last = len(blocks[-1]['raw'])
+        for cut in (80 + 13, 80 + 30, 80 + 100, last - len(btc.ser_tx(blocks[-1]['txs'][0])) - 1 - 40):
+            import shutil
+            dd = w.sub('cl')
+            shutil.copytree(d, dd)
+            with open(os.path.join(dd, 'blk00000.dat'), 'r+b') as f:
+                f.truncate(total - last + cut)
+            for cb in ('csvdump', 'simplestats'):
+                r = run.run_parser(dd, cb, dump=w.mk('out') if cb == 'csvdump' else None, coin=coin)
+                ck.evals()
+                ck.distinct(('auxcut', coin, cut, cb))
+                finals = [f for f in r.listing if not f.endswith('.tmp')]
+                if r.rc == 0 or finals:
+                    ck.violation('%s: blk file ends %d bytes into the last block (inside its AuxPoW section), %s exits %d and leaves %s' % (coin, cut, cb, r.rc, finals),
+                                 {'coin': coin, 'cut': cut, 'observed': r.brief(), 'tags': []})
+
